@@ -83,6 +83,7 @@ def _rules():
         ],
         "content": [
             lambda R, c, rid: shared.content_tables(R, c, rid),
+            lambda R, c, rid: accessors.read_honours_offset(R, c, rid),
         ],
         "export": [
             lambda R, c, rid: c06.rule_b(R, c, rid),
@@ -122,10 +123,14 @@ def _rules():
         "text-units": [
             lambda R, c, rid: shared.text_units(R, c, rid),
             lambda R, c, rid: shared.format_replacement(R, c, rid),
+            lambda R, c, rid: accessors.text_length_unit(R, c, rid),
         ],
         "update-events": [
             lambda R, c, rid: _as(R, c, rid, c07.rule_b, "C07.b"),
             lambda R, c, rid: _as(R, c, rid, c07.rule_c, "C07.c"),
+        ],
+        "observers": [
+            lambda R, c, rid: accessors.fresh_per_round(R, c, rid),
         ],
         "identity": [
             lambda R, c, rid: shared.branch_identity(R, c, rid),
@@ -145,13 +150,13 @@ DEPENDS = {
     "C01": ["squash", "splice", "partial", "flags", "stash-deletes", "lookup", "content", "export", "liveness", "block-wire", "merge", "state-vector", "identity", "weak-wire", "update-events"],
     "C02": ["stash-deletes", "lookup", "export", "block-wire", "merge", "state-vector"],
     "C03": ["splice", "conflict", "lookup", "content", "map-api", "text-units"],
-    "C04": ["splice", "dependency", "stash-deletes", "lookup", "content", "block-iter", "update-events"],
+    "C04": ["splice", "dependency", "stash-deletes", "lookup", "content", "block-iter", "update-events", "liveness"],
     "C05": ["conflict", "squash", "splice", "dependency", "map-api", "merge", "delete-set", "update-events"],
     "C06": ["dependency", "delete-set", "slice", "partial", "lookup", "content", "merge", "state-vector", "liveness", "block-wire"],
     "C07": ["delete-set", "slice", "partial", "export", "liveness", "block-wire", "state-vector"],
     "C08": ["slice", "delete-set", "partial", "block-wire", "state-vector", "merge"],
     "C09": ["slice", "partial", "content", "identity", "weak-wire", "block-wire"],
-    "C11": ["liveness"],
+    "C11": ["liveness", "observers"],
     "C12": ["splice", "squash", "lookup"],
     "C13": ["splice", "delete-set", "lookup", "content", "export", "liveness", "state-vector", "block-wire"],
     "C14": ["splice", "liveness", "lookup", "redone", "block-iter", "identity"],
